@@ -4,6 +4,7 @@ import (
 	"context"
 	"fmt"
 	"io"
+	"strings"
 	"sync"
 	"sync/atomic"
 	"time"
@@ -149,6 +150,34 @@ func c01ReusedReply(r *Run) {
 			}
 			r.Eval(fmt.Sprintf("reuse/%v/%s", serialise, req), true)
 			r.Count("reuse.calls")
+		}
+		rig.Close()
+	}
+}
+
+// c01MethodSpelling: the server accepts a method with or without the leading slash (parseRawMethod); a
+// unary call made under either spelling gets its reply.
+func c01MethodSpelling(r *Run) {
+	if !r.Want("spelling") {
+		return
+	}
+	for _, serialise := range []bool{true, false} {
+		rig := NewRig(RigOpt{Serialise: serialise})
+		rig.Impl.SetUnary(func(ctx context.Context, req []byte) ([]byte, error) { return unaryF(req), nil })
+		for i, method := range []string{mUnary, strings.TrimPrefix(mUnary, "/"), mUnary, strings.TrimPrefix(mUnary, "/")} {
+			in := map[string]any{"method": method, "serialise": serialise}
+			r.Progress("spelling", in)
+			req := []byte(fmt.Sprintf("spelled-%d", i))
+			out := new(wrapperspb.BytesValue)
+			ctx, cancel := context.WithTimeout(context.Background(), hangTimeout)
+			err := rig.CC.Invoke(ctx, method, &wrapperspb.BytesValue{Value: req}, out)
+			cancel()
+			if err != nil || string(out.Value) != string(unaryF(req)) {
+				r.Violate("spelling.none", "ops", "a unary call whose method is spelled the way the server accepts did not get the handler's reply", in, fmt.Sprintf("reply=%x err=%v", out.Value, err), fmt.Sprintf("%x", unaryF(req)))
+				break
+			}
+			r.Eval(fmt.Sprintf("spelling/%v/%d", serialise, i), true)
+			r.Count("spelling.calls")
 		}
 		rig.Close()
 	}
